@@ -23,10 +23,31 @@ use std::io::Write;
 
 pub struct C20;
 
-/// A full-size header: 16 + 65535 bytes. A writer that holds no more than this after the
-/// write was certainly "below its size limit" before it (any limit smaller than that could
-/// not hold a maximal header); writes that end above it are not judged.
+/// A full-size header: 16 + 65535 bytes. A writer that holds less than this is certainly "below
+/// its size limit" (a limit smaller than that could not hold a maximal header), whatever the
+/// size of the value that is written next. A value is judged when the writer is below a
+/// full-size header throughout its write, i.e. also when the last of the parts it is written
+/// in begins (the crate writes addresses and TLVs field by field); otherwise it is not judged.
 const SAFE_TOTAL: usize = 16 + 65535;
+
+/// Length of the last part a value is written in (its whole encoding for single-part values).
+fn last_part_len(p: &Payload, enc_len: usize) -> usize {
+    match p {
+        Payload::Addr(fam, _) => match fam {
+            1 | 2 => 2,
+            3 => 108,
+            _ => 0,
+        },
+        Payload::TlvStruct(_, f) | Payload::TlvTuple(_, f) | Payload::TlvTyped(_, f) => {
+            if f.len == 0 {
+                2
+            } else {
+                f.len
+            }
+        }
+        _ => enc_len,
+    }
+}
 
 fn kind_name(p: &Payload) -> &'static str {
     match p {
@@ -287,7 +308,8 @@ impl Check for C20 {
                     let before_len = model[w].len();
                     let oversized = must_fail(p);
                     let unjudged_size = matches!(p, Payload::Section(f) | Payload::SectionAdvanced(_, f) if f.len > 65535);
-                    let judged = !unjudged_size && (oversized || before_len + enc.len() <= SAFE_TOTAL);
+                    let last_part_start = before_len + enc.len() - last_part_len(p, enc.len()).min(enc.len());
+                    let judged = !unjudged_size && (oversized || last_part_start < SAFE_TOTAL);
                     let r = guard(|| real_write(p, &data, &mut real[w], by_ref));
                     st.oracle_evals += 1;
                     st.log(
@@ -305,8 +327,11 @@ impl Check for C20 {
                     if by_ref {
                         st.hit("probe:written_by_reference");
                     }
+                    if judged && !oversized && before_len + enc.len() > SAFE_TOTAL {
+                        st.hit("probe:write_crosses_a_full_header");
+                    }
                     if !judged {
-                        st.hit("skip:write_ends_above_a_full_header");
+                        st.hit("skip:writer_not_below_a_full_header");
                         in_sync[w] = false;
                         continue;
                     }
@@ -395,7 +420,7 @@ impl Check for C20 {
                         }
                     }
                     // converting the value to bytes directly gives the same encoding
-                    if enc.len() <= SAFE_TOTAL || oversized {
+                    {
                         match guard(|| real_to_bytes(p, &data)) {
                             Ok(Ok(b)) => {
                                 st.hit("probe:to_bytes_compared");
@@ -481,10 +506,11 @@ impl Check for C20 {
             "probe:written_by_reference",
             "probe:raw_io_write",
             "probe:final_contents_compared",
+            "probe:write_crosses_a_full_header",
         ]
     }
     fn rule(&self) -> String {
-        "one run = one writer history: two Writers (empty, or pre-filled through Writer::from / io::Write::write_all with 0..65552 bytes) receive up to 10 seeded write_to calls of every encodable kind (integers of every width and sign, byte slice, Addresses of each family, TypeLengthValue borrowed and owned, (u8, &[u8]) and (Type, &[u8]) pairs, TypeLengthValues whole and advanced, Type), by value and through the &T impl, each directed to one of the two writers; directed families put an oversized value (65536..131072 value bytes) at a seeded point of the history, the largest legal values (65535) and writers that end just below / at / above a full-size header. After every write that ends at or below 16 + 65535 bytes held: result Ok(n) with n = length of the specification encoding, the writer holds the previous contents followed by that encoding (compared after every operation, or only at the end of the history, drawn per run) and to_bytes() gives the same bytes; an oversized value must be refused by write_to and to_bytes with the writer unchanged; a TLV, its owned copy and the equivalent pair encode identically. Writes that end above a full-size header are not judged (the model is re-synchronised from the writer). Distinct by (operation-kind sequence, family).".into()
+        "one run = one writer history: two Writers (empty, or pre-filled through Writer::from / io::Write::write_all with 0..65552 bytes) receive up to 10 seeded write_to calls of every encodable kind (integers of every width and sign, byte slice, Addresses of each family, TypeLengthValue borrowed and owned, (u8, &[u8]) and (Type, &[u8]) pairs, TypeLengthValues whole and advanced, Type), by value and through the &T impl, each directed to one of the two writers; directed families put an oversized value (65536..131072 value bytes) at a seeded point of the history, the largest legal values (65535) and writers that end just below / at / above a full-size header. After every write into a writer that holds less than 16 + 65535 bytes (also at the moment the last of the value's parts is written; the write itself may end above that): result Ok(n) with n = length of the specification encoding, the writer holds the previous contents followed by that encoding (compared after every operation, or only at the end of the history, drawn per run) and to_bytes() gives the same bytes; an oversized value must be refused by write_to and to_bytes with the writer unchanged; a TLV, its owned copy and the equivalent pair encode identically. Writes into a writer that is not below a full-size header are not judged (the model is re-synchronised from the writer). Distinct by (operation-kind sequence, family).".into()
     }
     fn real_vs_stub(&self) -> serde_json::Value {
         json!({
@@ -495,7 +521,7 @@ impl Check for C20 {
     }
     fn assumptions(&self) -> Vec<String> {
         vec![
-            "a writer that holds at most 16 + 65535 bytes after a write was below its size limit before it; writes that end above that are not judged".into(),
+            "a writer that holds less than 16 + 65535 bytes is below its size limit (a smaller limit could not hold a maximal header); a value is judged when that is so throughout its write, i.e. also when the last of its parts begins; other writes are not judged".into(),
             "a TypeLengthValues section above 65535 bytes is not judged (it has no 16-bit length of its own and the property names byte slices of at most 65535 bytes)".into(),
             "the writers' contents are observed through finish() / Writer::from(), the only public way to look into a Writer".into(),
         ]
